@@ -19,11 +19,18 @@
 (* A DistanceSet is [idx, dist] with dist the stack of distances to the    *)
 (* chain of ancestors (last = distance to the current node's point).       *)
 (*                                                                         *)
-(* Known defects of the code that the model does NOT reproduce (the trace  *)
-(* check reports them): build_cover_tree starts max_dist at -1, so for a   *)
-(* single point get_scale(-1) takes ln of a negative number and unwraps    *)
-(* None; and for n >= 2 identical points max_scale = i64::MIN and          *)
-(* `max_scale - 1` overflows.  The model is defined for BuildDefined only. *)
+(* Boundary inputs (both were defects of the original code, repaired in    *)
+(* /repo by 02cd5f3 and b27e8d1, and are modelled as repaired):            *)
+(*  - build_cover_tree starts max_dist at 0 (it used to start at -1, and   *)
+(*    get_scale(-1) took the logarithm of a negative number).  A single    *)
+(*    point therefore gives get_scale(0) = i64::MIN, batch_insert returns  *)
+(*    a bare leaf, and because the searches descend through children only  *)
+(*    the leaf is wrapped: the root of a one-point tree has itself as its  *)
+(*    only child.                                                          *)
+(*  - for n >= 2 identical points max_scale = i64::MIN and the code        *)
+(*    computes max_scale.saturating_sub(1) (a plain `- 1` overflowed);     *)
+(*    SatDec below.  The duplicates branch then hangs one leaf per copy    *)
+(*    under the root.                                                      *)
 (***************************************************************************)
 EXTENDS HeapOps, FiniteSets
 
@@ -36,6 +43,7 @@ RECURSIVE IPow(_, _)
 IPow(b, e) == IF e <= 0 THEN 1 ELSE b * IPow(b, e - 1)
 
 MinScale == -1000                      \* stands for i64::MIN (get_scale(0))
+SatDec(s) == IF s = MinScale THEN MinScale ELSE s - 1      \* i64::saturating_sub(1)
 MaxScaleAdm == 8
 (* d <= base^s  (get_cover_radius(s) = 1.3^s; for s < 0 it is below 1) *)
 Within(d, s) == IF d = 0 THEN TRUE
@@ -81,7 +89,7 @@ BatchInsert(dm, p, maxScale, topScale, ps, cs) ==
     IF ps = <<>> THEN [node |-> Leaf(p), ps |-> ps, cs |-> cs]
     ELSE
     LET maxDist   == MaxLast(ps)
-        nextScale == MinI(maxScale - 1, GetScale(maxDist))
+        nextScale == MinI(SatDec(maxScale), GetScale(maxDist))
     IN  IF nextScale = MinScale
         THEN \* every remaining point coincides with p: a node with one leaf per copy
              [node |-> [idx |-> p, maxDist |-> 0, parentDist |-> 0, scale |-> 100,
@@ -119,12 +127,17 @@ ChildLoop(dm, p, maxScale, nextScale, topScale, ps, far, cs, children) ==
 N(dm) == Len(dm)
 RECURSIVE MaxRowUpTo(_, _)
 MaxRowUpTo(row, j) == IF j = 0 THEN 0 ELSE LET m == MaxRowUpTo(row, j - 1) IN IF row[j] > m THEN row[j] ELSE m
-BuildDefined(dm) == N(dm) >= 2 /\ MaxRowUpTo(dm[1], N(dm)) > 0
+(* [node, ps]: the root and what is left in the point set (must be empty) *)
 Build(dm) ==
     LET n  == N(dm)
         ps == [j \in 1..(n - 1) |-> [idx |-> j + 1, dist |-> <<dm[1][j + 1]>>]]
-        sc == GetScale(MaxRowUpTo(dm[1], n))
-    IN  BatchInsert(dm, 1, sc, sc, ps, <<>>)
+        sc == GetScale(MaxRowUpTo(dm[1], n))          \* max_dist starts at 0
+        b  == BatchInsert(dm, 1, sc, sc, ps, <<>>)
+    IN  [node |-> IF b.node.children = <<>>
+                  THEN \* single point: the bare leaf becomes the only child of its own root
+                       [idx |-> 1, maxDist |-> 0, parentDist |-> 0, scale |-> 100, children |-> <<b.node>>]
+                  ELSE b.node,
+         ps |-> b.ps]
 
 (***************************************************************************)
 (* Structural facts about a tree (nodes as built above).                   *)
